@@ -137,6 +137,9 @@ def fam_stop(tier, seed):
         end = 9 * S + 8 * H
         if after == "restart":
             steps.append({"at": 7 * S + 3 * H, "do": "start", "i": role})
+            if role == "B":   # later the leader leaves: the restarted follower must take over
+                steps.append({"at": 7 * S + 6 * H, "do": "stopctx", "i": "A", "del": True})
+                end += 6 * H
         if after == "stop2":
             st2 = dict(STOP_VARIANTS[(v + 1 + k) % len(STOP_VARIANTS)])
             st2.update({"at": 7 * S + 3 * H, "i": role})
@@ -321,6 +324,19 @@ def fam_health(tier, seed):
         for _ in range(200):
             L = rng.randrange(3, 20)
             seqs.append("".join(rng.choice("hhuuusS") for _ in range(L)))
+    hang = []
+    for k in range(8 if tier == "quick" else 60):
+        H = rng.choice([200 * MS, 500 * MS, 1 * S])
+        ratio = rng.choice([3.0, 3.5, 5.0])
+        pre = "h" * rng.randrange(0, 3)
+        insts = [inst("A", health_n=rng.choice([0, 2, 3]), health=pre + "x", health_rest="h", vi_us=rng.choice([H, 2 * H]),
+                      health_hang_us=int(ratio * H) + rng.choice([2 * H, 4 * H, 8 * H]))]
+        steps = [{"at": 0, "do": "start", "i": "A"}]
+        if rng.random() < 0.4:
+            insts.append(inst("B"))
+            steps.append({"at": H // 2, "do": "start", "i": "B"})
+        hang.append(scn("health-hang-%d" % k, seed * 1000 + 800 + k, H, ratio, insts, steps, "health", int((len(pre) + 14) * H + 3 * ratio * H) + 3 * S))
+    out += hang
     for k, sq in enumerate(seqs):
         H = rng.choice([200 * MS, 500 * MS, 1 * S])
         ratio = rng.choice([3.0, 3.5, 5.0])
@@ -421,7 +437,7 @@ def fam_validate(tier, seed):
         elif cls != "none":
             steps.append({"at": t, "do": "out_put", "cls": cls})
         # the call: before, at, or after the interference; sometimes with the read held while it happens
-        mode = rng.choice(["after", "before", "race", "race"])
+        mode = rng.choice(["after", "before", "race", "race", "after_hold", "after_hold"])
         call = {"do": "validate", "i": rng.choice(["A", "A", "A", "B"]) if len(insts) > 1 else "A", "vod": vod, "ctx_us": ctx}
         rules = []
         if mode == "after":
@@ -430,6 +446,14 @@ def fam_validate(tier, seed):
         elif mode == "before":
             call["at"] = max(1, t - rng.randrange(1, H))
             steps.append(call)
+        elif mode == "after_hold":
+            # the call starts after the record was lost but before the instance noticed; its read stays in flight
+            # across the demotion (and the follower's bookkeeping)
+            call["at"] = t + rng.choice([1, 5 * MS, 50 * MS])
+            call["ctx_us"] = 0
+            steps.append(call)
+            steps.append({"when": {"i": call["i"], "kind": "get", "src": "validate", "nth": 0, "phase": rng.choice(["pre", "pre", "post"])},
+                          "do": "noop", "then": [{"do": "sleep", "us": rng.choice([H + H // 2, 2 * H + H // 2, 3 * S])}]})
         else:
             call["at"] = max(1, t - 10 * MS)
             steps.append(call)
